@@ -1014,3 +1014,23 @@ def condensed_table_ok(result, df, by, f_cross):
 def _np_flat(v):
     import numpy as _np
     return _np.atleast_1d(_np.asarray(v, dtype=float))
+
+
+# ---- C19: logomaker count matrix
+def column_count(seqs, i, c):
+    return sum(1 for s in seqs if 0 <= int(i) < len(s) and s[int(i)] == c)
+
+
+def observed_residues(seqs, i):
+    return "".join(sorted({s[int(i)] for s in seqs if s[int(i)] not in "-."}))
+
+
+def regex_prefix(seqs, i):
+    out = ""
+    n = len(seqs)
+    for k in range(int(i)):
+        o = observed_residues(seqs, k)
+        out += (f"[{o}]" if len(o) > 1 else o)
+        if sum(1 for s in seqs if s[k] not in "-.") != n:
+            out += "?"
+    return out
